@@ -126,7 +126,7 @@ _dt.date, _dt.datetime = _Date, _DateTime
 """
 
 
-def spawn(tool, argv, stdin_text="", cwd=None, env=None, timeout=120, clock=None):
+def spawn(tool, argv, stdin_text="", cwd=None, env=None, timeout=120, clock=None, pyflags=()):
     """Run the tool as a real process (fresh interpreter).  clock (seconds since the epoch) pins what the child's time and
     datetime modules report, from before cnfgen is imported."""
     code = ("import sys; sys.path.insert(0, %r); sys.argv[0] = %r; "
@@ -141,7 +141,7 @@ def spawn(tool, argv, stdin_text="", cwd=None, env=None, timeout=120, clock=None
     e["PYTHONPYCACHEPREFIX"] = os.path.join(tempfile.gettempdir(), "vmon-pycache-%d" % os.getuid())
     if env:
         e.update(env)
-    p = subprocess.run([sys.executable, "-c", code] + list(argv), input=stdin_text.encode(),
+    p = subprocess.run([sys.executable] + list(pyflags) + ["-c", code] + list(argv), input=stdin_text.encode(),
                        capture_output=True, cwd=cwd, env=e, timeout=timeout)
     return Outcome(p.returncode, p.stdout.decode("utf-8", "replace"),
                    p.stderr.decode("utf-8", "replace"), None)
